@@ -20,7 +20,7 @@ var (
 			"utils.ExponentialBackoffDuration; oracle = closed form d>0 and 0.9*E(n) <= d <= 1.1*E(n), E(n)=min(2^n ms, 3 s) in big-integer "+
 			"arithmetic (1 us rounding tolerance); non-trivial = n >= 11 (at or beyond the cap); distinct = distinct n")
 	recB = vh.NewRecorder("C08", "agent-polling",
-		"fail/succeed patterns of 6-25 pending-list calls (failure kinds: 5xx, 404, garbage JSON, body truncated mid-way) served by a fake proxy to "+
+		"fail/succeed patterns of 6-25 pending-list calls (failure kinds: 5xx, 404, garbage JSON, body truncated mid-way, error statuses with an empty body) served by a fake proxy to "+
 			"the real agent binary, 4 patterns concurrently on separate agents; oracle on fake-proxy timestamps: the gap after the j-th "+
 			"consecutive failure is >= 0.9*E(j-1) (lower bounds only), and after a run of k>=9 failures, one success and one failure the "+
 			"gap is < 0.9*E(k) (counter was reset); non-trivial = pattern with >=3 consecutive failures followed by a success")
@@ -127,7 +127,7 @@ type CaseB struct {
 
 func genPattern(t *rapid.T) []Step {
 	var p []Step
-	kinds := []string{"5xx", "404", "garbage", "truncated"}
+	kinds := []string{"5xx", "404", "garbage", "truncated", "503-empty", "401-empty", "500-empty-chunked"}
 	budget := 4500 // ms of expected sleeping
 	addRun := func(k int) {
 		for j := 0; j < k; j++ {
@@ -202,6 +202,17 @@ func runPattern(p []Step) (nontrivial bool, err error, inconclusive string) {
 		case st.Kind == "garbage":
 			w.WriteHeader(200)
 			w.Write([]byte("{not json"))
+		case st.Kind == "503-empty":
+			w.Header().Set("Content-Length", "0")
+			w.WriteHeader(503)
+		case st.Kind == "401-empty":
+			w.Header().Set("Content-Length", "0")
+			w.WriteHeader(401)
+		case st.Kind == "500-empty-chunked":
+			w.WriteHeader(500)
+			if f, ok := w.(http.Flusher); ok {
+				f.Flush()
+			}
 		case st.Kind == "404":
 			w.WriteHeader(404)
 			w.Write([]byte("not found"))
